@@ -67,7 +67,7 @@ def tad_pipe():
     return _pipe["tad"]
 
 
-BUILD = dict(zero_alive=G.zero_alive, order_sum=G.order_sum, zero_dead=G.zero_dead, p2_selfloop=G.p2_selfloop, huge_reward=G.huge_reward, zero_branch=G.zero_branch, decimals2=G.decimals2, tiny_vs_dead=G.tiny_vs_dead, cancel_mass=G.cancel_mass,
+BUILD = dict(final_to_dead=G.final_to_dead, zero_alive=G.zero_alive, order_sum=G.order_sum, zero_dead=G.zero_dead, p2_selfloop=G.p2_selfloop, huge_reward=G.huge_reward, zero_branch=G.zero_branch, decimals2=G.decimals2, tiny_vs_dead=G.tiny_vs_dead, cancel_mass=G.cancel_mass,
              dead_branch_rewards=G.dead_branch_rewards, corridor=G.corridor, p1_final=G.p1_final, init_final=G.init_final, big_rewards=G.big_rewards, dup_actions=G.dup_actions, decimals=G.decimals,
              tie_small=G.tie_small, all_live_orphan=G.all_live_orphan, p2_shared=G.p2_shared, paid_final=G.paid_final, orphans=G.orphans, slow_rew=G.slow_rew, regroup=G.regroup, rew_ties=G.rew_ties, fig55=G.fig55, dead=G.dead_family, cyc=G.cyc, cyc2=G.cyc2, ec=G.ec, finals=G.finals, p2choice=G.p2choice,
              lex=G.lex, ties=G.ties, ties_p2=G.ties_p2, nosol=G.nosol, unreach=G.unreach, slow_chain=G.slow_chain)
@@ -181,7 +181,7 @@ def _stopping_instances(tier):
         inst.append(("unreach", [w]))
     for o in (0, 1, 2):
         inst.append(("orphans", [o]))
-    inst += [("zero_alive", []), ("order_sum", []), ("zero_dead", []), ("zero_branch", []), ("decimals2", []), ("tiny_vs_dead", []), ("dead_branch_rewards", []), ("p1_final", [P1]), ("p1_final", [P2]), ("init_final", []), ("dup_actions", []), ("decimals", []), ("tie_small", []),
+    inst += [("final_to_dead", []), ("zero_alive", []), ("order_sum", []), ("zero_dead", []), ("zero_branch", []), ("decimals2", []), ("tiny_vs_dead", []), ("dead_branch_rewards", []), ("p1_final", [P1]), ("p1_final", [P2]), ("init_final", []), ("dup_actions", []), ("decimals", []), ("tie_small", []),
              ("all_live_orphan", []), ("p2_shared", ["a"]), ("p2_shared", ["b"])]
     for order in ([(0, 1, 2), (2, 1, 0), (1, 0, 2)] if tier == "quick" else list(itertools.permutations(range(3)))):
         inst.append(("big_rewards", [P2, list(order)]))
@@ -416,7 +416,7 @@ def pipe_final(sp, game, args, prune):
 
 def _diag_jobs(tier, seed):
     # C14's premise: stopping games with absorbing final states and unambiguous action names
-    return [j for j in _rew_jobs(tier, seed) if j["game"] not in ("dup_actions", "init_final", "p1_final")]
+    return [j for j in _rew_jobs(tier, seed) if j["game"] not in ("dup_actions", "init_final", "p1_final", "final_to_dead")]
 
 
 @harness("pipe.diagnostics", props=["C14"], jobs=_diag_jobs, covers=["solved"], stubs=["logging -> sweep counter",
